@@ -146,6 +146,16 @@ class Namespace(MutableMapping):
         else: # refers to variable outside the function being examined
             self.names[name] = Name(name)
 
+    def owner(self, name):
+        """The namespace name is looked up in: the innermost one that binds
+        it, self when none does."""
+        ns = self
+        while ns is not None:
+            if name in ns.names:
+                return ns
+            ns = ns.nonlocals.get(name, ns.parent)
+        return self
+
     def is_immutable_value(self, name):
         ns = self.nonlocals.get(name, self)
         return name in ns.immutables
@@ -344,8 +354,13 @@ class CallListerVisitor(ast.NodeVisitor):
             self.namespace.add_nonlocal(name)
 
     def visit_Name(self, node):
-        immutable = self.namespace.is_immutable_value(node.id)
-        if not (immutable and isinstance(node.ctx, ast.Load)):
+        if isinstance(node.ctx, ast.Load):
+            # a nested function reading a variable of an enclosing one
+            # has its hands on that variable, not on a copy
+            ns = self.namespace.owner(node.id)
+            if not ns.is_immutable_value(node.id):
+                ns[node.id] = Unknown(node)
+        else:
             self.namespace[node.id] = Unknown(node)
 
     def visit_Attribute(self, node):
@@ -390,6 +405,15 @@ class CallListerVisitor(ast.NodeVisitor):
         if self.namespace.parent is None:
             self.process_Call(node)
         else:
+            # a method called on a parameter counts from here on,
+            # the rest waits until the whole function has been seen
+            instance = node.func
+            while isinstance(instance, ast.Attribute):
+                instance = instance.value
+            if instance is not node.func and isinstance(instance, ast.Name):
+                marker = self.namespace.get(instance.id)
+                if isinstance(marker, Arg):
+                    marker.tainted = node
             self.to_revisit.append((node, self.namespace))
 
     def __iter__(self):
